@@ -18,7 +18,14 @@
    A jq program may also stop with an error on an object; its result is then the outputs
    it produced together with that failure, and the text makes no exception for it:
    Deleted triggers whenever listed and every delivered change shows in the snapshot.
-   (The code drops such deliveries entirely: known finding F16, trigger [T_F16].) *)
+   (The code drops such deliveries entirely: known finding F16, trigger [T_F16].)
+
+   "Listed in executeHookOnEvent" / "all subsets of {Added, Modified, Deleted}": the list is
+   the one the user DECLARES in the hook configuration ([decl]: the key executeHookOnEvent and
+   the deprecated key watchEvent, each absent or present with any list).  [declared_types]
+   reads it off the declaration as the documentation says, [only_listed] is the clause "only
+   if its watch-event type is listed in executeHookOnEvent" and [P_decl] the property for a
+   declared binding. *)
 From Verif Require Import Common Json C08_Model.
 
 (* what is observed after one delivered watch event *)
@@ -116,6 +123,46 @@ Section WithOracle.
   Definition P_start (types : list evtype) (filter : bool) (listed : list (N * json))
                      (h : list step) (obs_l : list obs) : bool :=
     P_from types filter (known_of_list filter listed) h obs_l.
+
+  (* ---- the event list as the user DECLARES it ----
+     The property speaks of what is "listed in executeHookOnEvent" and quantifies over "all
+     subsets of {Added, Modified, Deleted}": the list is the one the user writes in the hook
+     configuration, not a field of the monitor.  What the documentation says about it
+     (docs/src/HOOKS.md, section "kubernetes", parameters):
+       "executeHookOnEvent - the list of events which led to a hook's execution.  By default,
+        all events are used to execute a hook: "Added", "Modified" and "Deleted". [...] Empty
+        array can be used to prevent hook execution, it is useful when binding is used only to
+        define a snapshot."   and, in "Snapshots": "`executeHookOnSynchronization: false`
+        accompanied by `executeHookOnEvent: []` defines a "snapshot-only" binding."
+     So: WHENEVER THE KEY executeHookOnEvent IS PRESENT, its value - any list over the three
+     types, the empty one included - is the list the property speaks of, whatever else the
+     binding declares; when it is absent the documented default is all three.
+     The configuration schema still allows the former name of the key, `watchEvent`, with the
+     same values (one pattern, "^(watchEvent|executeHookOnEvent)$", covers both; HOOKS.md no
+     longer mentions it; test/hook/context/README.md still writes the event list under it).
+     For a binding that declares ONLY the former name the list is read from there: that is
+     what "alias" means, and nothing in the text speaks against it; the default applies when
+     neither key is present.  Beside executeHookOnEvent the former name has NO meaning. *)
+  Definition declared_types (d : decl) : list evtype :=
+    match d_exec d, d_watch d with
+    | Some l, _ => l
+    | None, Some w => w
+    | None, None => [Added; Modified; Deleted]
+    end.
+
+  (* "triggers the hook only if its watch-event type is listed in executeHookOnEvent", said
+     directly of the declaration and of every delivery, as a clause of its own (it does not
+     depend on projections, so no finding of the filter side touches it) *)
+  Definition only_listed (d : decl) (obs_l : list obs) : bool :=
+    match d_exec d with
+    | Some l => forallb (fun ob => forallb (listed l) (o_fired ob)) obs_l
+    | None => true
+    end.
+
+  (* the property for a declared binding: everything above w.r.t. the declared list *)
+  Definition P_decl (d : decl) (filter : bool) (listed : list (N * json))
+                    (h : list step) (obs_l : list obs) : bool :=
+    P_start (declared_types d) filter listed h obs_l && only_listed d obs_l.
 
   (* the listed objects as steps (for the trigger predicates, which look at objects only) *)
   Definition listed_steps (listed : list (N * json)) : list step :=
